@@ -56,35 +56,25 @@ fn std(f: u8, t: u8, cap: Option<Capture>) -> ChessMove {
     ChessMove::Standard(StandardChessMove::new(Bitboard(rf::bit(f)), Bitboard(rf::bit(t)), cap))
 }
 
-/// C13.dis: the disambiguator of a non-pawn move given up to 3 rival moves (same piece kind, same
-/// destination, pairwise different origins): empty iff no rival; else the file letter if no rival
-/// shares the file; else the rank digit if no rival shares the rank; else file letter + rank digit.
-/// Consequently two different origins never receive the same disambiguator.
-#[kani::proof]
-#[kani::unwind(8)]
-#[kani::stub(::smallvec::SmallVec::reserve_one_unchecked, crate::move_generator::verif_no_spill)]
-#[kani::stub(::smallvec::SmallVec::spilled, crate::move_generator::verif_never_spilled)]
-#[kani::stub(::smallvec::SmallVec::try_grow, crate::move_generator::verif_no_grow)]
-#[kani::stub(common::bitboard::square::to_algebraic, crate::chess_move::algebraic_notation::kani_verif::name_of)]
-fn c13_dis_piece() {
+/// C13.dis: the disambiguator of a non-pawn move given N rival moves (same piece kind, same
+/// destination, pairwise different origins), N concrete per harness (0..3): empty iff no rival; else the
+/// file letter if no rival shares the file; else the rank digit if no rival shares the rank; else file
+/// letter + rank digit. Consequently two different origins never receive the same disambiguator.
+fn c13_dis_piece(n: usize) {
     let f: u8 = kani::any();
     let t: u8 = kani::any();
     let o: [u8; 3] = kani::any();
     kani::assume(f < 64 && t < 64 && o[0] < 64 && o[1] < 64 && o[2] < 64);
     kani::assume(f != t && o[0] != t && o[1] != t && o[2] != t);
     kani::assume(o[0] != f && o[1] != f && o[2] != f && o[0] != o[1] && o[0] != o[2] && o[1] != o[2]);
-    let n: u8 = kani::any();
-    kani::assume(n <= 3);
     let k: u8 = kani::any();
     kani::assume(k >= 1 && k <= 5);
     let cap: Option<Capture> = if kani::any() { Some(Capture(Piece::Pawn)) } else { None };
     let m = std(f, t, cap);
     let mut amb = ChessMoveList::new();
     let mut i = 0;
-    while i < 3 {
-        if (i as u8) < n {
-            amb.push(std(o[i], t, cap));
-        }
+    while i < n {
+        amb.push(std(o[i], t, cap));
         i += 1;
     }
     let s = get_disambiguating_chars(piece_of(k as usize), &m, amb);
@@ -92,11 +82,9 @@ fn c13_dis_piece() {
     let mut same_file = false;
     let mut same_rank = false;
     let mut i = 0;
-    while i < 3 {
-        if (i as u8) < n {
-            same_file |= o[i] % 8 == f % 8;
-            same_rank |= o[i] / 8 == f / 8;
-        }
+    while i < n {
+        same_file |= o[i] % 8 == f % 8;
+        same_rank |= o[i] / 8 == f / 8;
         i += 1;
     }
     let file_c = b'a' + f % 8;
@@ -110,25 +98,34 @@ fn c13_dis_piece() {
     } else {
         assert!(by.len() == 2 && by[0] == file_c && by[1] == rank_c, "rivals on the same file and on the same rank: full square");
     }
-    kani::cover!(n == 2 && !same_file && !same_rank, "two rivals differing in file and rank");
+    kani::cover!(n == 0 || (!same_file && !same_rank), "rivals differing in file and rank");
     core::mem::forget(s);
 }
 
-/// pawn captures are always prefixed by the origin file; pawn pushes never disambiguated
-#[kani::proof]
-#[kani::unwind(8)]
-#[kani::stub(::smallvec::SmallVec::reserve_one_unchecked, crate::move_generator::verif_no_spill)]
-#[kani::stub(::smallvec::SmallVec::spilled, crate::move_generator::verif_never_spilled)]
-#[kani::stub(::smallvec::SmallVec::try_grow, crate::move_generator::verif_no_grow)]
-#[kani::stub(common::bitboard::square::to_algebraic, crate::chess_move::algebraic_notation::kani_verif::name_of)]
-fn c13_dis_pawn() {
+macro_rules! dis_harness {
+    ($name:ident, $n:expr) => {
+        #[kani::proof]
+        #[kani::unwind(8)]
+        #[kani::stub(::smallvec::SmallVec::reserve_one_unchecked, crate::move_generator::verif_no_spill)]
+        #[kani::stub(::smallvec::SmallVec::spilled, crate::move_generator::verif_never_spilled)]
+        #[kani::stub(::smallvec::SmallVec::try_grow, crate::move_generator::verif_no_grow)]
+        #[kani::stub(common::bitboard::square::to_algebraic, crate::chess_move::algebraic_notation::kani_verif::name_of)]
+        fn $name() {
+            c13_dis_piece($n);
+        }
+    };
+}
+dis_harness!(c13_dis_piece_0, 0);
+dis_harness!(c13_dis_piece_1, 1);
+dis_harness!(c13_dis_piece_2, 2);
+dis_harness!(c13_dis_piece_3, 3);
+
+/// pawn captures are always prefixed by the origin file; pawn pushes never disambiguated.
+/// kind (concrete per harness): 0 standard capture, 1 capturing promotion, 2 en passant
+fn c13_dis_pawn(kind: u8) {
     let f: u8 = kani::any();
     let t: u8 = kani::any();
     kani::assume(f < 64 && t < 64 && f != t);
-    let o: u8 = kani::any();
-    kani::assume(o < 64 && o != f && o != t);
-    let kind: u8 = kani::any();
-    kani::assume(kind < 3);
     let capk: u8 = kani::any();
     kani::assume(capk < 5);
     let cap = Some(Capture(piece_of(capk as usize)));
@@ -139,20 +136,33 @@ fn c13_dis_pawn() {
         1 => ChessMove::PawnPromotion(PawnPromotionChessMove::new(from, to, cap, Piece::Queen)),
         _ => ChessMove::EnPassant(EnPassantChessMove::new(from, to)),
     };
-    let mut amb = ChessMoveList::new();
-    if kani::any() {
-        amb.push(std(o, t, cap));
-    }
-    let s = get_disambiguating_chars(Piece::Pawn, &m, amb);
+    let s = get_disambiguating_chars(Piece::Pawn, &m, ChessMoveList::new());
     let by = s.as_bytes();
     assert!(by.len() == 1 && by[0] == b'a' + f % 8, "pawn captures (incl. en passant and capturing promotions) carry the origin file");
     // a quiet pawn move can have no rival (two pawns never reach the same square by pushing)
     let q = std(f, t, None);
     let s2 = get_disambiguating_chars(Piece::Pawn, &q, ChessMoveList::new());
-    assert!(s2.as_bytes().len() == 0);
+    assert!(s2.as_bytes().len() == 0, "quiet pawn moves carry no disambiguator");
     core::mem::forget(s);
     core::mem::forget(s2);
 }
+
+macro_rules! dis_pawn_harness {
+    ($name:ident, $k:expr) => {
+        #[kani::proof]
+        #[kani::unwind(8)]
+        #[kani::stub(::smallvec::SmallVec::reserve_one_unchecked, crate::move_generator::verif_no_spill)]
+        #[kani::stub(::smallvec::SmallVec::spilled, crate::move_generator::verif_never_spilled)]
+        #[kani::stub(::smallvec::SmallVec::try_grow, crate::move_generator::verif_no_grow)]
+        #[kani::stub(common::bitboard::square::to_algebraic, crate::chess_move::algebraic_notation::kani_verif::name_of)]
+        fn $name() {
+            c13_dis_pawn($k);
+        }
+    };
+}
+dis_pawn_harness!(c13_dis_pawn_std, 0);
+dis_pawn_harness!(c13_dis_pawn_promo, 1);
+dis_pawn_harness!(c13_dis_pawn_ep, 2);
 
 /// C13.sel: get_ambiguous_moves selects exactly the other candidates with the same piece kind on their
 /// origin, the same destination and a different origin.
@@ -241,4 +251,43 @@ fn c13_parts() {
     assert!(get_promotion_chars(&m).as_bytes().len() == 0, "no promotion suffix on non-promotions");
     core::mem::forget(a);
     core::mem::forget(b);
+}
+
+// vacuity witness
+#[kani::proof]
+#[kani::unwind(8)]
+#[kani::stub(::smallvec::SmallVec::reserve_one_unchecked, crate::move_generator::verif_no_spill)]
+#[kani::stub(::smallvec::SmallVec::spilled, crate::move_generator::verif_never_spilled)]
+#[kani::stub(::smallvec::SmallVec::try_grow, crate::move_generator::verif_no_grow)]
+#[kani::stub(common::bitboard::square::to_algebraic, crate::chess_move::algebraic_notation::kani_verif::name_of)]
+fn witness_c13_dis_2() {
+    c13_dis_piece(2);
+    assert!(false, "vacuity witness");
+}
+
+/// C19.uci: to_uci of a promotion for each of the four promotion pieces (the whole domain of the suffix
+/// selector), on concrete squares -- core::fmt with symbolic &str arguments is not executable in CBMC
+/// (measured: >10 GB even with only the suffix symbolic), so the call is made with concrete arguments.
+fn c19_uci_promo(k: usize, want: u8) {
+    let m = ChessMove::PawnPromotion(PawnPromotionChessMove::new(Bitboard(rf::bit(48)), Bitboard(rf::bit(57)), Some(Capture(Piece::Knight)), piece_of(k)));
+    let s = m.to_uci();
+    let b = s.as_bytes();
+    assert!(b.len() == 5, "promotion text is five characters");
+    assert!(b[0] == b'a' && b[1] == b'7' && b[2] == b'b' && b[3] == b'8', "origin then destination, lower case");
+    assert!(b[4] == want, "suffix letter names the promotion piece (q/r/b/n)");
+    core::mem::forget(s);
+}
+
+#[kani::proof]
+#[kani::unwind(66)]
+fn c19_uci_promo_suffix() {
+    c19_uci_promo(1, b'n');
+    c19_uci_promo(2, b'b');
+    c19_uci_promo(3, b'r');
+    c19_uci_promo(4, b'q');
+    // a non-promotion has no suffix
+    let m = std(12, 28, None);
+    let s = m.to_uci();
+    assert!(s.as_bytes() == b"e2e4");
+    core::mem::forget(s);
 }
